@@ -111,10 +111,11 @@ def execute(machine_cls, seed, knobs, ops, max_ops=None, realfs_root=None):
     """Execute one run.  Returns a plain-dict record."""
     SEAMS.install()
     SCHED.install()
-    SCHED.reseed(seeds.H(seed, 'hash'))
     leaked = GLOBALS.reset()
     from . import fresh
+    # (taken once per process, before the run's hash sequence starts: it allocates objects)
     fresh_before = fresh.pristine() if realfs_root is None else None
+    SCHED.reseed(seeds.H(seed, 'hash'))
     ctx = Ctx(seed, knobs, realfs_root)
     if leaked:
         ctx.stats['process_globals_restored'] += leaked
